@@ -121,3 +121,130 @@ def replay(pid, path):
     d = json.load(open(path if os.path.isabs(path) else os.path.join(core.VERIF, path)))
     print(json.dumps(d, indent=1)[:4000])
     return 0
+
+
+# ------------------------------------------------------------------------------------------------
+# C08 — core-schema scalar typing
+# ------------------------------------------------------------------------------------------------
+C08_ALPHA = "0123456789+-.eExoabcdfABCDF_nulNULtrTRsSiIyY~"     # characters that occur in core-schema literals
+C08_ALPHA_SMALL = "0179+-.eExoaAfF_nulNULtri~"
+C08_CONFIGS = ["plain", "plain!!int", "plain!!float", "plain!!bool", "plain!!null", "plain!!str", "plain!foo",
+               "single", "double", "literal", "folded", "double!!int", "plain!!binary"]
+
+
+def c08_float_class(d):
+    """canonical class of a float dump from either side: nan, or the sign (an exact decimal of the model may
+    round to a finite double, to zero or to infinity: the value itself is certified by the oracle)"""
+    if d == "Fnan":
+        return "Fnan"
+    if d == "Finf":
+        return "F+"
+    if d == "F-inf":
+        return "F-"
+    if d.startswith("Fd") and "^" in d:
+        return "F-" if d.startswith("Fd-") else "F+"
+    if d.startswith("F") and len(d) == 17:
+        bits = int(d[1:], 16)
+        ex = (bits >> 52) & 0x7ff
+        frac = bits & ((1 << 52) - 1)
+        if ex == 0x7ff and frac:
+            return "Fnan"
+        return "F-" if bits >> 63 else "F+"
+    return d
+
+
+def c08_canon(line):
+    body = line.rsplit(";", 1)[0]
+    return "|".join(c08_float_class(x) for x in body.split("|"))
+
+
+def c08_cases(tier, rng):
+    groups = []
+    groups.append(("corpus", gen.corpus_file("resolver_seeds.jsonl")))
+    words = ["null", "Null", "NULL", "~", "true", "True", "TRUE", "false", "False", "FALSE", ".inf", ".Inf", ".INF", "+.inf",
+             "-.inf", "-.Inf", "-.INF", "+.INF", ".nan", ".NaN", ".NAN", "inf", "nan", "NaN", "infinity", "Infinity", "+inf",
+             "-Infinity", "0x", "0o", "0x+1", "0x-1", "0o+7", "+-1", "++1", "-+1", "--1", "+", "-", ".", "e", "1e", "1e+", "e5",
+             ".e5", "1.e5", "1.", ".5", "+.5", "-.5", "1_000", "0b1", "0O7", "0X1", "1E5", "1e-5", "1e+5", "-0", "+0", "00", "007",
+             "0x0", "0o0", "0o8", "0xg", "0xFF", "0xff", "0xfF", "yes", "no", "on", "off", "y", "n", "", " ", "1 ", " 1", "１"]
+    groups.append(("words", words))
+    b = []
+    for k in (63, 64, 31, 32, 53):
+        for d in (-2, -1, 0, 1, 2):
+            v = 2 ** k + d
+            for s in (str(v), "-" + str(v), "+" + str(v), hex(v), oct(v), "0x" + format(v, "X"), str(v) + ".0", str(v) + "e0"):
+                b.append(s)
+    groups.append(("boundary-integers", b))
+    nums = []
+    for _ in range(3000 if tier == "quick" else 200000):
+        sign = rng.choice(["", "", "+", "-"])
+        ip = "".join(rng.choice("0123456789") for _ in range(rng.randrange(0, 22)))
+        fp = "".join(rng.choice("0123456789") for _ in range(rng.randrange(0, 22)))
+        form = rng.randrange(6)
+        if form == 0:
+            s = sign + (ip or "0")
+        elif form == 1:
+            s = sign + ip + "." + fp
+        elif form == 2:
+            s = sign + ip + "." + fp + rng.choice("eE") + rng.choice(["", "+", "-"]) + str(rng.randrange(0, 400))
+        elif form == 3:
+            s = sign + (ip or "1") + rng.choice("eE") + rng.choice(["", "+", "-"]) + str(rng.randrange(0, 400))
+        elif form == 4:
+            s = "0x" + "".join(rng.choice("0123456789abcdefABCDEF") for _ in range(rng.randrange(0, 18)))
+        else:
+            s = "0o" + "".join(rng.choice("01234567") for _ in range(rng.randrange(0, 24)))
+        if rng.random() < 0.15 and s:
+            p = rng.randrange(len(s) + 1)
+            s = s[:p] + rng.choice(C08_ALPHA) + s[p:]
+        nums.append(s)
+    groups.append(("random-numbers", nums))
+    groups.append(("random-alphabet", ["".join(rng.choice(C08_ALPHA) for _ in range(rng.randrange(4, 12)))
+                                       for _ in range(3000 if tier == "quick" else 100000)]))
+    if tier == "quick":
+        groups.append(("exhaustive<=3/%d" % len(C08_ALPHA), list(gen.exhaustive(C08_ALPHA, 3))))
+    else:
+        groups.append(("exhaustive<=4/%d" % len(C08_ALPHA), list(gen.exhaustive(C08_ALPHA, 4))))
+        groups.append(("exhaustive<=5/%d" % len(C08_ALPHA_SMALL), list(gen.exhaustive(C08_ALPHA_SMALL, 5))))
+    return groups
+
+
+def check_C08(tier, seed):
+    res = Result("C08", tier, seed)
+    proof = prepare("C08", res)
+    rng = gen.rng_for(seed, "C08")
+    cases, dist = dedupe(c08_cases(tier, rng))
+    cases = [s for s in cases if "\n" not in s]
+    lines = [enc(s) for s in cases]
+    res.coverage["input_distribution"] = dict(groups=dist, sizes=size_hist(cases))
+    res.coverage["configurations"] = C08_CONFIGS
+    if res.harness_ok and res.model_ok:
+        impl = run_hx(["resolve"], lines)
+        model = run_mx(["resolve"], lines)
+        verd = run_mx(["c08-oracle"], [l + "#" + r for l, r in zip(lines, impl)])
+        kinds = {}
+        for i, s in enumerate(cases):
+            res.evaluations += 1
+            r0 = impl[i].split("|")[0]
+            kinds[r0[:1]] = kinds.get(r0[:1], 0) + 1
+            if r0[:1] != "S":
+                res.nontrivial.add(s)
+            flags = impl[i].rsplit(";", 1)[-1] if ";" in impl[i] else impl[i]
+            v = verd[i]
+            if flags != "ok":
+                res.add_violation("borrowed/owned/node-level resolution entry points disagree: " + flags,
+                                  dict(input=s, codepoints=enc(s)), impl=impl[i])
+            elif len(v) != len(C08_CONFIGS) or set(v) != {"1"}:
+                bad = [C08_CONFIGS[k] for k, c in enumerate(v) if c != "1"] if len(v) == len(C08_CONFIGS) else ["?"]
+                res.add_violation("core-schema oracle rejects the implementation's result for configuration(s) %s" % bad,
+                                  dict(input=s, codepoints=enc(s)), impl=impl[i], oracle=v)
+            if c08_canon(model[i]) != c08_canon(impl[i]):
+                res.add_tie_break("correspondence: resolver model != implementation", case=s,
+                                  model=c08_canon(model[i]), impl=c08_canon(impl[i]))
+        res.coverage["untagged_result_kinds"] = kinds
+        res.coverage["traces_validated_against_impl"] = len(cases)
+        for i in (5, len(cases) // 4, len(cases) // 2, len(cases) - 7):
+            if 0 <= i < len(cases):
+                res.samples.append(dict(input=cases[i], impl=impl[i][:160]))
+    rule = ("scalar texts: exhaustive strings over the %d-symbol core-literal alphabet, literal words, boundary integers, "
+            "random numbers in every spelling, random alphabet strings; each under 13 (style, tag) configurations; "
+            "non-trivial = distinct texts whose untagged plain reading is not a string" % len(C08_ALPHA))
+    return res.finish(proof, rule)
